@@ -1395,7 +1395,8 @@ class C05(Prop):
             "different chunk sizes in [1,4096]; (b) FixedIn vs FixedOut of the same algorithm and filter; (c) the sinc types "
             "with a random set_chunk_size schedule against a constant chunking; (d) FftFixedIn / FftFixedOut / FftFixedInOut "
             "with (chunk, sub_chunks) resolving to the same FFT sizes, compared bit for bit; all with the same input signal "
-            "(noise, sine, index), f32 and f64, real interpolators and the probe. The common prefix must agree to rounding. "
+            "(noise, sine, index), f32 and f64, real interpolators and the probe, with exact-size and with longer-than-needed "
+            "input buffers. The common prefix must agree to rounding. "
             "distinct = (kind pair, config, chunk pair); non-trivial = the two chunkings differ")
     assumptions = COMMON_ASSUME + ["position arithmetic is re-associated by the carry between chunks: streams are compared "
                                    "with a tolerance of 1e-9 (f64) / 2e-4 (f32) times the peak; FFT streams bit for bit"]
@@ -1432,7 +1433,8 @@ class C05(Prop):
                         if kd.startswith("sinc") and rng.random() < 0.1 and slot == 0:
                             ops.append(f"{slot} chunk {rng.randint(1, chunk)}")
                             feats.add("set_chunk_size")
-                        ops.append(f"{slot} proc - n m {sig} dump")
+                        insz = rng.choice(["n", "n", "m", "n+5", "m+9"])
+                        ops.append(f"{slot} proc - {insz} m {sig} dump")
                 hs.append(History(ops, {"cfg": cfg.line, "kind": kind, "ty": cfg.ty, "feats": sorted(feats),
                                         "pair": (p[1], p2[1]), "chunks": (ca, cb), "fft": False,
                                         "exact": cfg.line.endswith("probe") and sig == "i"}))
@@ -1448,9 +1450,13 @@ class C05(Prop):
                          f"{ty} fftin {ri} {ro} {fi * s1} {s1} {nch}",
                          f"{ty} fftout {ri} {ro} {fo * s2} {s2} {nch}"]
                 ops = [f"{k} new {l}" for k, l in enumerate(lines)]
+                # inputs are sometimes longer than needed (the documented way to reuse one allocate-sized buffer): the frames
+                # behind the consumed ones are the NEXT frames of the stream and must not influence anything
+                over = rng.random() < 0.6
                 for slot, per in ((0, fi), (1, fi * s1), (2, fi)):
                     for j in range(max(2, min(400, total // per))):
-                        ops.append(f"{slot} proc - n m {sig} dump")
+                        insz = rng.choice(["n", "m", f"n+{fi}", f"n+{2 * fi + 3}"]) if over else "n"
+                        ops.append(f"{slot} proc - {insz} m {sig} dump")
                 hs.append(History(ops, {"cfg": lines[1], "kind": "fft", "ty": ty, "feats": ["fft-variants"],
                                         "pair": ("fftio", "fftin", "fftout"), "chunks": (fi, fi * s1, fo * s2), "fft": True}))
         return hs
